@@ -18,10 +18,13 @@ func TestPinnedSignatures(t *testing.T) {
 		t.Fatalf("numPinned = %d, len(pinned) = %d", numPinned, len(pinned))
 	}
 	var ff core.FindingsFile
-	ids := []string{"C08-completion-value-D1-break-nested-in-finally", "C08-completion-value-D2-branch-nested-in-block", "C08-completion-value-D3-do-while-if-break"}
+	ids := []string{"C08-completion-value-D1-break-nested-in-finally", "C08-completion-value-D2-branch-nested-in-block", "C08-completion-value-D3-do-while-if-break", "C08-goapi-forof-return-replaces-body-exception"}
+	cv := "goja decides completion values statically (scanStatements/lastProducingIdx/needResult); a break/continue that is not a direct statement of its list defeats the analysis; repair is structural (see /verif/inbox/C08-completion-value-break-continue-KNOWN-FINDINGS.md). " +
+		"Domain exclusion: at script level C08 does not compare the NORMAL completion value of instances whose placed exit is a break/continue (event log, thrown values, function-level return values still compared)."
+	why := []string{cv, cv, cv, "patch proposed in /verif/inbox/C08-goapi-forof-return-throw-replaces-body-exception.md, not merged yet. Domain exclusion: generated instances combining a throwing Go step callback (GoForOf Op>=2) with an instrumented iterator whose return() throws / returns a non-object, or with a generator (whose close may throw from a finally block), are not run (flag goForOfReturnOverrideKnown)."}
 	k := 0
 	for i, p := range pinned {
-		if !p.script {
+		if !p.script && !p.known {
 			continue
 		}
 		idx := -(i + 1)
@@ -33,9 +36,8 @@ func TestPinnedSignatures(t *testing.T) {
 			continue
 		}
 		ff.Findings = append(ff.Findings, core.KnownFinding{Property: "C08", ID: ids[k], Signature: r.Signature, What: p.name + " — " + r.Detail,
-			WhyNotFixed: "goja decides completion values statically (scanStatements/lastProducingIdx/needResult); a break/continue that is not a direct statement of its list defeats the analysis; repair is structural (see /verif/inbox/C08-completion-value-break-continue-KNOWN-FINDINGS.md). " +
-				"Domain exclusion: at script level C08 does not compare the NORMAL completion value of instances whose placed exit is a break/continue (event log, thrown values, function-level return values still compared).",
-			Witness: r.Case})
+			WhyNotFixed: why[k],
+			Witness:     r.Case})
 		k++
 	}
 	ff.Fixed = []string{
@@ -44,6 +46,7 @@ func TestPinnedSignatures(t *testing.T) {
 		"fixed: property=C08 8c93623/3946397/0537d50 uncatchable fault inside for-of over a suspended generator ran finally/return() and left try/iterator stack entries (pinned -3, -4)",
 		"fixed: property=C08 056e0c3 interrupt inside return() while a catchable throw closes a destructured iterator left call/try stacks and the interrupt flag behind (pinned -5)",
 		"fixed: property=C08 1dd81f5 iteratorRecord.iterate called return() after a stack overflow / interrupt and swallowed an uncatchable error raised inside return() (found by the stack-limit sweep)",
+		"fixed: property=C08 4ec883b Runtime.ForOf: a throwing / non-object return() replaced the exception of the Go step callback (pinned witness 'Runtime.ForOf: the Go step callback's exception wins')",
 		"fixed: property=C08 5eaf5ea try { 4; var x = f() } catch (e) {} evaluated to 4 (script-level completion value)",
 	}
 	b, _ := json.MarshalIndent(&ff, "", " ")
